@@ -490,11 +490,11 @@ def typed2 (cfg : CheckCfg) : List OTy → Node → Bool
   | cs, .index m x i =>
     ((sliceOK (synth cfg cs x) && intOK (synth cfg cs i)) ||
       idxAnyOK (synth cfg cs x) (synth cfg cs i) (synth cfg cs (.index m x i))) && typed2 cfg cs x && typed2 cfg cs i
-  | cs, .slice _ x none none => sliceOK (synth cfg cs x) && typed2 cfg cs x
-  | cs, .slice _ x (some f) none => sliceOK (synth cfg cs x) && typed2 cfg cs x && intOK (synth cfg cs f) && typed2 cfg cs f
-  | cs, .slice _ x none (some t) => sliceOK (synth cfg cs x) && typed2 cfg cs x && intOK (synth cfg cs t) && typed2 cfg cs t
+  | cs, .slice _ x none none => collOK (synth cfg cs x) && typed2 cfg cs x
+  | cs, .slice _ x (some f) none => collOK (synth cfg cs x) && typed2 cfg cs x && intOK (synth cfg cs f) && typed2 cfg cs f
+  | cs, .slice _ x none (some t) => collOK (synth cfg cs x) && typed2 cfg cs x && intOK (synth cfg cs t) && typed2 cfg cs t
   | cs, .slice _ x (some f) (some t) =>
-    sliceOK (synth cfg cs x) && typed2 cfg cs x && intOK (synth cfg cs f) && typed2 cfg cs f &&
+    collOK (synth cfg cs x) && typed2 cfg cs x && intOK (synth cfg cs f) && typed2 cfg cs f &&
       intOK (synth cfg cs t) && typed2 cfg cs t
   | cs, .builtin _ _ [a] => lenOK (synth cfg cs a) && typed2 cfg cs a
   | cs, .builtin _ name [a, .closure _ b] =>
@@ -704,7 +704,7 @@ theorem frag2_sound (hd : E .divzero) (hi : E .index) (hbud : E .budget) (cfg : 
     simp only [inFrag2] at hf
     simp only [typed2, Bool.and_eq_true] at ht
     refine spec2_slice hi cfg c cs m x none none (frag2_sound hd hi hbud cfg c henv hdn fo hw hre hm x cs hf ht.2)
-      (fun n h => by cases h) (fun n h => by cases h) (sliceOK_elim ht.1)
+      (fun n h => by cases h) (fun n h => by cases h) (collOK_elim ht.1)
       (fun n it h => by cases h) (fun n it h => by cases h)
   | .slice m x (some f) none, cs, hf, ht => by
     simp only [inFrag2, Bool.and_eq_true] at hf
@@ -712,14 +712,14 @@ theorem frag2_sound (hd : E .divzero) (hi : E .index) (hbud : E .budget) (cfg : 
     obtain ⟨⟨⟨h1, h2⟩, h3⟩, h4⟩ := ht
     refine spec2_slice hi cfg c cs m x (some f) none (frag2_sound hd hi hbud cfg c henv hdn fo hw hre hm x cs hf.1 h2)
       (fun n h => by cases h; exact frag2_sound hd hi hbud cfg c henv hdn fo hw hre hm f cs hf.2 h4) (fun n h => by cases h)
-      (sliceOK_elim h1) (fun n it h => by cases h; exact intOK_elim h3 it) (fun n it h => by cases h)
+      (collOK_elim h1) (fun n it h => by cases h; exact intOK_elim h3 it) (fun n it h => by cases h)
   | .slice m x none (some t), cs, hf, ht => by
     simp only [inFrag2, Bool.and_eq_true] at hf
     simp only [typed2, Bool.and_eq_true] at ht
     obtain ⟨⟨⟨h1, h2⟩, h3⟩, h4⟩ := ht
     refine spec2_slice hi cfg c cs m x none (some t) (frag2_sound hd hi hbud cfg c henv hdn fo hw hre hm x cs hf.1 h2)
       (fun n h => by cases h) (fun n h => by cases h; exact frag2_sound hd hi hbud cfg c henv hdn fo hw hre hm t cs hf.2 h4)
-      (sliceOK_elim h1) (fun n it h => by cases h) (fun n it h => by cases h; exact intOK_elim h3 it)
+      (collOK_elim h1) (fun n it h => by cases h) (fun n it h => by cases h; exact intOK_elim h3 it)
   | .slice m x (some f) (some t), cs, hf, ht => by
     simp only [inFrag2, Bool.and_eq_true] at hf
     simp only [typed2, Bool.and_eq_true] at ht
@@ -727,7 +727,7 @@ theorem frag2_sound (hd : E .divzero) (hi : E .index) (hbud : E .budget) (cfg : 
     refine spec2_slice hi cfg c cs m x (some f) (some t) (frag2_sound hd hi hbud cfg c henv hdn fo hw hre hm x cs hf.1.1 h2)
       (fun n h => by cases h; exact frag2_sound hd hi hbud cfg c henv hdn fo hw hre hm f cs hf.1.2 h4)
       (fun n h => by cases h; exact frag2_sound hd hi hbud cfg c henv hdn fo hw hre hm t cs hf.2 h6)
-      (sliceOK_elim h1) (fun n it h => by cases h; exact intOK_elim h3 it) (fun n it h => by cases h; exact intOK_elim h5 it)
+      (collOK_elim h1) (fun n it h => by cases h; exact intOK_elim h3 it) (fun n it h => by cases h; exact intOK_elim h5 it)
   | .builtin m name [a], cs, hf, ht => by
     simp only [inFrag2, Bool.and_eq_true, beq_iff_eq] at hf
     simp only [typed2, Bool.and_eq_true] at ht
